@@ -7,7 +7,7 @@ sd=$1; prop=$2; name=$3
 out=/verif/seeded/$name; mkdir -p $out
 pkg=$(grep -m1 '^package ' $sd/demo_test.go | awk '{print $2}')
 case "$pkg" in
-  fix) dir=fix;; encoding) dir=fix/encoding;; simplefixgo|simplefixgo_test) dir=.;; session) dir=session;; memory) dir=storages/memory;; utils) dir=utils;; tests) dir=tests;; *) dir=fix;;
+  fix|fix_test) dir=fix;; encoding|encoding_test) dir=fix/encoding;; session_test) dir=session;; utils_test) dir=utils;; memory_test) dir=storages/memory;; simplefixgo|simplefixgo_test) dir=.;; session) dir=session;; memory) dir=storages/memory;; utils) dir=utils;; tests) dir=tests;; *) dir=fix;;
 esac
 tmp=$(mktemp -d /tmp/govc-confirm-XXXXXX)
 rsync -a --exclude .git /repo/ $tmp/with/; rsync -a --exclude .git /repo/ $tmp/without/
